@@ -346,6 +346,36 @@ example : (RA.seek (openSeekable [[1, 2, 3, 4, 5], [6, 7, 8]] (fun _ _ _ => 2) .
     remaining (openSeekable [[1, 2, 3, 4, 5], [6, 7, 8]] (fun _ _ _ => 2) .eof [] true) = [1, 2, 3, 4, 5, 6, 7, 8] := by
   refine ⟨by decide +kernel, by decide +kernel, by decide +kernel, by decide +kernel, by decide +kernel⟩
 
+/-- The same finding on the state the harness reaches by `open` (which peeks one byte: the
+first 2-byte block is buffered): after the refused seek to offset 9 the buffered bytes 1, 2 are
+followed by nothing — the remaining six bytes are lost, and nothing marks the filter.  This is
+the known-finding witness replayed on the real code on every run (`seek 9 set` answers
+ARCHIVE_FATAL, the next `ahead 3` a short read of 2 bytes with `end=no`). -/
+def afterOpen : State :=
+  { openSeekable [[1, 2, 3, 4, 5], [6, 7, 8]] (fun _ _ _ => 2) .eof [] true with
+    cblk := [1, 2]
+    cavail := 2
+    src := [[3, 4], [5]] }
+
+theorem failed_seek_after_open :
+    Inv afterOpen ∧ remaining afterOpen = (allBytes afterOpen).drop afterOpen.position ∧
+    (RA.seek afterOpen 9 .set).1 = -30 ∧ (RA.seek afterOpen 9 .set).2.position = 0 ∧
+    (RA.seek afterOpen 9 .set).2.fatal = false ∧ remaining (RA.seek afterOpen 9 .set).2 = [1, 2] ∧
+    remaining afterOpen = [1, 2, 3, 4, 5, 6, 7, 8] := by
+  refine ⟨?_, by decide +kernel, by decide +kernel, by decide +kernel, by decide +kernel, by decide +kernel,
+    by decide +kernel⟩
+  exact { cbIn := by decide +kernel, bufLt := by decide +kernel, clientEq := by decide +kernel,
+          prov := ⟨[], [], by decide +kernel, by decide +kernel, by decide +kernel, by decide +kernel⟩,
+          eofSrc := (by decide +kernel),
+          srcOk := (by intro b hb; simp [afterOpen] at hb; rcases hb with rfl | rfl <;> simp),
+          laterOk := (by
+            intro n hn
+            have : n = [[6, 7], [8]] := by
+              have h2 : afterOpen.later = [[[6, 7], [8]]] := by decide +kernel
+              rw [h2] at hn; simpa using hn
+            subst this
+            intro b hb; simp at hb; rcases hb with rfl | rfl <;> simp) }
+
 /-- Non-vacuity of `seek_never_silent` / `seek_callback_fault_reported`: a three-node source
 whose seek callback fails with code -7 at its first invocation. -/
 example : ({ openSeekable [[1, 2, 3], [], [4, 5, 6, 7]] (fun _ _ _ => 2) .eof [] true with seeks := [-7] } : State).seeks.head? = some (-7) ∧
